@@ -32,6 +32,18 @@ between checks, or are configuration / accumulators. A new per-Checker container
 theorem. -/
 theorem caches_registered : cachesRegistered Gen.scannedCaches = true := caches_registered_proof
 
+/-- **Scan obligation for process-level state.** Every module-level mutable container, every
+module-level instance of a class with container fields (`_empty_constrained`), every class-level
+mutable attribute and every memoising decorator of pyanalyze has a registered kind. -/
+theorem proc_state_registered : procStateRegistered Gen.scannedProcState = true := proc_state_registered_proof
+
+/-- **Scan obligation for identity keys.** Every expression that uses `id(…)` as (part of) a key, a
+hash or a membership test is registered with the reason why the address still belongs to a live
+object when it is compared. A new address key — e.g. a cache keyed by `id(node)` that does not hold
+the node — breaks this theorem; it is what `KeyedByValue` in `process_history_independent_partial`
+stands for. -/
+theorem id_keys_registered : idKeysRegistered Gen.scannedIdKeys = true := id_keys_registered_proof
+
 /-- `any(p(x) for x in S)`, `all(…)`, `for x in S: if p(x): return True` — full. -/
 theorem anyAll_order_free {α : Type} (p : α → Bool) :
     OrderFree (siteAny p) ∧ OrderFree (siteAll p) :=
@@ -197,15 +209,27 @@ theorem orBound_partial (elems o₁ o₂ : List (List Nat)) (hd : D10_twoOrMore 
     (h₁ : o₁.Perm elems) (h₂ : o₂.Perm elems) : siteOrBound o₁ = siteOrBound o₂ := by
   rw [orders_eq_of_small elems o₁ o₂ hd h₁ h₂]
 
+/-- `x in {"a", "b"}` (c06bd97): the set payload is sorted before the narrowed `Literal[…]` is built —
+full. -/
+theorem inSet_order_free : OrderFree siteInSet := by
+  intro o₁ o₂ h
+  simp only [siteInSet, isortBy_perm strLe strLe_linear h]
+
+/-- `TypedValue.__str__` (99947e4) no longer reads the per-instance cached type object: the text is
+the same whatever earlier checks did to the instance — full. -/
+theorem typedValueStr_history_free (c₁ c₂ : Bool) (base : String) (members : List String) :
+    siteTypedValueStr c₁ base members = siteTypedValueStr c₂ base members := rfl
+
 /-! Non-vacuity of the partial theorems' hypotheses, and the repaired sites on concrete inputs. -/
 example : D10_twoOrMore ["zeta"] = false ∧ ["zeta"].Perm ["zeta"] := ⟨by decide, List.Perm.refl _⟩
 example : D10_twoSucceed (fun b : Nat => if b == 2 then some b else none) [1, 2, 3] = false := by decide
 example : siteExtraKwargs ["zeta", "a", "eta"] ["a"] = some "Got unexpected keyword arguments 'zeta', 'eta'" := by
   decide
 example : siteProtocolStr "P" true ["b", "a"] = "P (Protocol with members 'a', 'b')" := by decide
+example : siteInSet ["gamma", "alpha", "beta"] = "Literal['alpha', 'beta', 'gamma']" := by decide
 example : siteProtocolFirstFail "A" (fun _ => .missing) ["b", "a"] = some "A has no attribute 'a'" := by decide
 
-/-! ### Regression documentation: why the five sites were repaired (old site functions) -/
+/-! ### Regression documentation: why the seven sites were repaired (old site functions) -/
 
 /-- Before a944eb3: `'a', 'b'` vs `'b', 'a'` (former class joinExtraKwargs). -/
 theorem old_extraKwargs_depends : oldExtraKwargs ["a", "b"] ≠ oldExtraKwargs ["b", "a"] := by decide
@@ -219,6 +243,16 @@ theorem old_protocolStr_depends : oldProtocolStr "P" ["a", "b"] ≠ oldProtocolS
 theorem old_protocolFirstFail_depends :
     oldProtocolFirstFail "A" (fun _ => .missing) ["a", "b"] ≠
     oldProtocolFirstFail "A" (fun _ => .missing) ["b", "a"] := by decide
+
+/-- Before c06bd97: `Literal['a', 'b']` vs `Literal['b', 'a']` (former class inSetLiteralOrder). -/
+theorem old_inSet_depends : oldInSet ["a", "b"] ≠ oldInSet ["b", "a"] := by decide
+
+/-- Before 99947e4: the same protocol type rendered with or without `(Protocol with members …)`
+depending on whether an earlier check had filled in the instance's type object (former class
+typeObjectStr). -/
+theorem old_typedValueStr_depends_on_cache :
+    oldTypedValueStr false "typing.SupportsIndex" ["__index__"] ≠
+    oldTypedValueStr true "typing.SupportsIndex" ["__index__"] := by decide
 
 /-- Before 5fee81d: `x: Any`, tests in set order `[1, 2]` vs `[2, 1]` (former class orConstraintOrder). -/
 theorem old_orNarrow_depends :
@@ -331,6 +365,37 @@ example : callBounds (answerAfter wOk 3 [⟨false, 1, 0, 1⟩] ⟨false, 0, 0, 0
   decide
 example : answerAfter wOk 3 [⟨false, 0, 0, 0⟩] ⟨true, 0, 0, 0⟩ = none := by decide
 example : answerAfter wOk 3 [⟨false, 0, 0, 0⟩] ⟨false, 0, 1, 0⟩ = none := by decide
+
+/-- **History independence across Checkers and process-level state, partial.** One process: any
+sequence of protocol queries, new Checkers (per-Checker state starts empty, process-level state
+stays) and lookups in a process-level memo table. If the world is well-founded (`¬ D10_cyclic`), the
+fuel covers the queries, and the process-level table is *keyed by values* (`KeyedByValue`: equal keys
+mean equal content — never a bare address, which a later object can reuse), then whatever an event
+returns after the history is what it returns in a fresh process. -/
+theorem process_history_independent_partial (W : World) (rk : Rank) (fuel : Nat) (key : Obj → Nat)
+    (g : Nat → Nat) (h : List Event) (e : Event) (h1 : D10_cyclic W rk = false)
+    (hk : KeyedByValue key) (h4 : fuelOKE W rk fuel (e :: h) = true) :
+    outAfter W fuel key g h e = outAfter W fuel key g [] e := by
+  have hr : rankOK W rk = true := by simpa [D10_cyclic] using h1
+  simp only [fuelOKE, List.all_cons, Bool.and_eq_true] at h4
+  have h0 : ProcOK W rk key g {} :=
+    ⟨(by intro e a p v bm hm; cases hm), rfl, (by intro q v hl; simp at hl)⟩
+  have hinv := runE_inv W rk hr fuel key g hk h {} h0 (by simpa [fuelOKE] using h4.2)
+  exact (stepE_spec W rk hr fuel key g hk _ hinv e (by simp [fuelOKE, h4.1])).1
+
+/-- The hypothesis is needed: a process-level table keyed by the address alone (`id(node)`) returns,
+for a new object that reuses the address of a freed one, what was resolved for the old object —
+with a new Checker in between (the seeded C10-2 defect; `_empty_constrained.resolution_cache`). -/
+theorem address_key_stale_witness :
+    outAfter ⟨[], []⟩ 1 (fun o => o.addr) (fun c => c + 100) [.resolve ⟨4096, 1⟩, .newChecker] (.resolve ⟨4096, 2⟩)
+      = .val (some 101) ∧
+    outAfter ⟨[], []⟩ 1 (fun o => o.addr) (fun c => c + 100) [] (.resolve ⟨4096, 2⟩) = .val (some 102) := by
+  decide
+
+/-- Non-vacuity: keyed by (address, content) — an entry that holds the object — is `KeyedByValue`. -/
+example : KeyedByValue (fun o => o.content) := fun _ _ h => h
+example : outAfter wOk 3 (fun o => o.content) (fun c => c + 100)
+    [.resolve ⟨4096, 1⟩, .query ⟨false, 1, 0, 1⟩, .newChecker] (.resolve ⟨4096, 2⟩) = .val (some 102) := by decide
 
 /-! ### Why `unify_bounds_maps` must return a new map (documentation of the aliasing defect)
 
